@@ -42,7 +42,11 @@ Definition dec_pos (z : Z) : float :=
   if e =? 0 then (if m =? 0 then zero else SF2Prim (S754_finite false (Z.to_pos m) (-1074)))
   else if e =? 2047 then (if m =? 0 then infinity else nan)
   else SF2Prim (S754_finite false (Z.to_pos (2 ^ 52 + m)) (e - 1075)).
-(* code of x >= 0 is its bit pattern, code of x < 0 is minus the bit pattern of -x *)
+(* code of x >= 0 is its bit pattern, code of x < 0 is minus the bit pattern of -x.
+   NaN: every NaN is coded as the canonical quiet NaN 0x7FF8000000000000, which lies ABOVE the code
+   of +infinity; the integer order of the codes is then numpy's arg-max order (np.argmax treats NaN
+   as maximal and returns the FIRST one = first-index arg-max of the codes, [amax]).  [dec] maps that
+   code to nan, on which both threshold tests below are false (IEEE comparisons), as in numpy. *)
 Definition dec (z : Z) : float := if z <? 0 then PrimFloat.opp (dec_pos (- z)) else dec_pos z.
 
 Definition tst_fabs (t : float) : tstfun := Some (fun _ s => PrimFloat.ltb (dec s) t).
